@@ -226,3 +226,193 @@ Proof.
     destruct B1 as [B1|B1]; [now left|right; now apply in_rev].
 Qed.
 End Geo.
+
+(* ---------------------------------------------------------------------------------------------- *)
+(* 4. the checks of place never fire on an alternative of the unplaced block                       *)
+
+Lemma c3_failb_false v M1 M2 x : ~ check1 v M1 M2 x -> ~ arm_b v M1 x -> ~ arm_b v M2 x ->
+  c3_failb (boundary (M1, M2)) x v = false.
+Proof.
+  intros H1 H2 H3. unfold boundary, c3_failb. cbn [fst snd]. apply orb_false_iff. split.
+  - destruct (_ && _ && _ && _) eqn:E; [|reflexivity]. apply check1_b in E. contradiction.
+  - destruct (check_case_4 _ _ _ _ _) eqn:E; [|apply andb_false_r]. apply cc4_b in E. tauto.
+Qed.
+
+Lemma c2_failb_false v M1 M2 x1 x2 :
+  ~ check1 v M1 M2 x1 -> ~ arm_b v M1 x1 -> ~ arm_b v M2 x1 ->
+  ~ check1 v M1 M2 x2 -> ~ arm_b v M1 x2 -> ~ arm_b v M2 x2 ->
+  c2_failb (boundary (M1, M2)) x1 x2 v = false.
+Proof.
+  intros A1 A2 A3 B1 B2 B3.
+  pose proof (c3_failb_false v M1 M2 x1 A1 A2 A3) as F1. pose proof (c3_failb_false v M1 M2 x2 B1 B2 B3) as F2.
+  unfold boundary, c3_failb, c2_failb in *. cbn [fst snd] in *.
+  apply orb_false_iff in F1, F2. destruct F1 as [F1 G1], F2 as [F2 G2]. apply orb_false_iff. split.
+  - destruct (isS (rkb v (nth_error M1 0)) && isS (rkb v (nth_error M2 0))); [|reflexivity]. cbn [andb] in *.
+    now rewrite F1, F2.
+  - destruct (isS (rkb v (nth_error M1 1)) || isS (rkb v (nth_error M2 1))); [|reflexivity]. cbn [andb] in *.
+    now rewrite G1, G2.
+Qed.
+
+Section Complete.
+Variable votes : list (list N).
+Hypothesis Hvne : votes <> [].
+
+Definition completable (A : paxis) (U : list N) : Prop :=
+  exists mu, Permutation U mu /\ forall v, In v votes -> spv v (rev (fst A) ++ mu ++ snd A).
+
+(* x is ranked last within U by the vote v / by some vote *)
+Definition bottom_in (v : list N) (U : list N) (x : N) : Prop :=
+  In x U /\ forall u, In u U -> u <> x -> rk v u < rk v x.
+Definition isbottom (U : list N) (x : N) : Prop := exists v, In v votes /\ bottom_in v U x.
+
+Section Step.
+Variables (M1 M2 mu : list N).
+Let sigma := rev M1 ++ mu ++ M2.
+Hypothesis Hnd : NoDup sigma.
+Hypothesis Hwf : forall v, In v votes -> NoDup v /\ incl sigma v.
+Hypothesis Hsp : forall v, In v votes -> spv v sigma.
+
+Lemma in_sigma_mu x : In x mu -> In x sigma.
+Proof. intros H. unfold sigma. apply in_or_app. right. apply in_or_app. now left. Qed.
+
+Lemma nofail x v : In v votes -> In x mu ->
+  ~ check1 v M1 M2 x /\ ~ arm_b v M1 x /\ ~ arm_b v M2 x.
+Proof.
+  intros Hv Hx. specialize (Hsp v Hv). repeat split.
+  - intros (p1 & p2 & E1 & E2 & H1 & H2). apply (Hsp p1 x p2); [|auto]. unfold sigma.
+    apply sub3_app. right. right. left. split.
+    + apply in_rev. rewrite rev_involutive. destruct M1; [discriminate|]. injection E1 as ->. now left.
+    + apply bef_app. right. left. split; [assumption|]. destruct M2; [discriminate|]. injection E2 as ->. now left.
+  - intros (p1 & p0 & E1 & E0 & H1 & H2). apply (Hsp p0 p1 x); [|auto]. unfold sigma.
+    apply sub3_app. right. left. split.
+    + apply bef_rev. destruct M1 as [|q1 [|q0 M1']]; try discriminate. injection E1 as ->. injection E0 as ->.
+      exists [], [], M1'. reflexivity.
+    + apply in_or_app. now left.
+  - intros (p1 & p0 & E1 & E0 & H1 & H2). apply (Hsp x p1 p0); [|auto]. unfold sigma.
+    rewrite app_assoc. apply sub3_app. right. right. left. split.
+    + apply in_or_app. now right.
+    + destruct M2 as [|q1 [|q0 M2']]; try discriminate. injection E1 as ->. injection E0 as ->.
+      exists [], [], M2'. reflexivity.
+Qed.
+
+Lemma rk_lt_of_not v a b : In v votes -> In a sigma -> In b sigma -> a <> b -> ~ rk v a < rk v b -> rk v b < rk v a.
+Proof.
+  intros Hv Ha Hb Hab Hn. destruct (Hwf v Hv) as [N1 N2].
+  pose proof (rk_neq v a b (N2 a Ha) (N2 b Hb) Hab). lia.
+Qed.
+
+(* ---- one bottom ---- *)
+Lemma existsb_false {T} (l : list T) : existsb (fun _ => false) l = false.
+Proof. induction l; simpl; auto. Qed.
+
+Lemma case_3_value A x : (forall v, In v votes -> c3_failb (boundary A) x v = false) ->
+  let c := existsb (fun v => olt (rkb v (nth_error (snd A) 0)) (rk v x)) votes in
+  let d := existsb (fun v => olt (rkb v (nth_error (fst A) 0)) (rk v x)) votes in
+  case_3 A x votes = ((if d then (fst A, x :: snd A) else (x :: fst A, snd A)), negb (c && d)).
+Proof.
+  intros H c d. unfold case_3. destruct A as [N1 N2]. unfold boundary in *. cbn [fst snd] in *.
+  destruct (isS (nth_error N1 0) || isS (nth_error N2 0)) eqn:G.
+  - rewrite (c3_fold_value _ x votes false false H). cbn [orb]. reflexivity.
+  - apply orb_false_iff in G. destruct G as [G1 G2].
+    destruct (nth_error N1 0); [discriminate|]. destruct (nth_error N2 0); [discriminate|].
+    unfold c, d. simpl. rewrite !existsb_false. reflexivity.
+Qed.
+
+Lemma flag_true (M : list N) x :
+  existsb (fun v => olt (rkb v (nth_error M 0)) (rk v x)) votes = true <->
+  exists v p, In v votes /\ nth_error M 0 = Some p /\ rk v p < rk v x.
+Proof.
+  rewrite existsb_exists. split.
+  - intros (v & Hv & H). apply olt_rkb in H. destruct H as (p & E & H). eauto.
+  - intros (v & p & Hv & E & H). exists v. split; [assumption|]. apply olt_rkb. eauto.
+Qed.
+
+Lemma hd_in_rev (M : list N) p : nth_error M 0 = Some p -> In p (rev M).
+Proof. destruct M; [discriminate|]. intros E. injection E as ->. apply in_rev. rewrite rev_involutive. now left. Qed.
+
+Lemma hd_in (M : list N) p : nth_error M 0 = Some p -> In p M.
+Proof. destruct M; [discriminate|]. intros E. injection E as ->. now left. Qed.
+
+Lemma single_step x mu0 : (mu = x :: mu0 \/ mu = mu0 ++ [x]) -> (forall v, In v votes -> bottom_in v mu x) ->
+  exists A' ok, case_3 (M1, M2) x votes = (A', ok) /\
+    (A' = (x :: M1, M2) \/ A' = (M1, x :: M2)) /\
+    (forall v, In v votes -> spv v (rev (fst A') ++ mu0 ++ snd A')) /\ (mu0 <> [] -> ok = true).
+Proof.
+  intros Hmu Hbot.
+  assert (Hx : In x mu) by (destruct Hmu as [-> | ->]; [now left|apply in_or_app; right; now left]).
+  assert (Hfail : forall v, In v votes -> c3_failb (boundary (M1, M2)) x v = false).
+  { intros v Hv. destruct (nofail x v Hv Hx) as (K1 & K2 & K3). now apply c3_failb_false. }
+  rewrite (case_3_value (M1, M2) x Hfail). cbn [fst snd].
+  set (c := existsb (fun v => olt (rkb v (nth_error M2 0)) (rk v x)) votes).
+  set (d := existsb (fun v => olt (rkb v (nth_error M1 0)) (rk v x)) votes).
+  eexists. eexists. split; [reflexivity|]. split; [destruct d; auto|].
+  assert (Hmu0x : forall u, In u mu0 -> In u mu /\ u <> x).
+  { intros u Hu. assert (Hnm : NoDup mu) by (unfold sigma in Hnd; apply NoDup_app_r in Hnd; now apply NoDup_app_l in Hnd).
+    destruct Hmu as [E|E]; rewrite E in *.
+    - split; [now right|]. intros ->. inversion Hnm; contradiction.
+    - split; [apply in_or_app; now left|]. intros ->. apply (NoDup_app_disj mu0 [x] Hnm x Hu). now left. }
+  assert (Hbetter : forall v u, In v votes -> In u mu0 -> rk v u < rk v x).
+  { intros v u Hv Hu. destruct (Hmu0x u Hu) as [H1 H2]. now apply (Hbot v Hv). }
+  destruct mu0 as [|u0 mu0'] eqn:Emu0.
+  { (* the last unplaced alternative: both placements give sigma *)
+    assert (Es : sigma = rev M1 ++ x :: M2) by (unfold sigma; destruct Hmu as [-> | ->]; reflexivity).
+    split; [|congruence]. intros v Hv. specialize (Hsp v Hv). rewrite Es in Hsp.
+    destruct d; cbn [fst snd rev app]; [exact Hsp|]. now rewrite <- app_assoc. }
+  rewrite <- Emu0 in *. assert (Hu0 : In u0 mu0) by (rewrite Emu0; now left).
+  destruct Hmu as [Hmu|Hmu].
+  - (* x next to the left part: flag_d cannot be set *)
+    assert (Hd : d = false).
+    { destruct d eqn:Ed; [exfalso|reflexivity]. apply flag_true in Ed. destruct Ed as (v & p & Hv & Ep & Hp).
+      apply (Hsp v Hv p x u0); [|split; [assumption|now apply Hbetter]]. unfold sigma. rewrite Hmu.
+      apply sub3_app. right. right. left. split; [now apply hd_in_rev|].
+      apply bef_app. left. apply bef_cons. left. split; [reflexivity|assumption]. }
+    rewrite Hd. cbn [fst snd]. split; [|intros _; now rewrite andb_false_r].
+    intros v Hv. specialize (Hsp v Hv). unfold sigma in Hsp. rewrite Hmu in Hsp.
+    simpl. rewrite <- app_assoc. exact Hsp.
+  - (* x next to the right part: flag_c cannot be set *)
+    assert (Hc : c = false).
+    { destruct c eqn:Ec; [exfalso|reflexivity]. apply flag_true in Ec. destruct Ec as (v & p & Hv & Ep & Hp).
+      apply (Hsp v Hv u0 x p); [|split; [now apply Hbetter|assumption]]. unfold sigma. rewrite Hmu.
+      apply sub3_app. right. right. right. apply sub3_app. right. left. split.
+      - apply bef_app. right. left. split; [assumption|now left].
+      - now apply hd_in in Ep. }
+    rewrite Hc. split; [|intros _; reflexivity].
+    assert (Es : sigma = rev M1 ++ mu0 ++ x :: M2) by (unfold sigma; rewrite Hmu, <- app_assoc; reflexivity).
+    destruct d eqn:Ed; cbn [fst snd].
+    + intros v Hv. specialize (Hsp v Hv). now rewrite Es in Hsp.
+    + intros v Hv. simpl. rewrite <- app_assoc. simpl.
+      destruct (Hwf v Hv) as [Nv Iv]. pose proof (Hsp v Hv) as Hs. rewrite Es in Hs, Hnd.
+      assert (HxS : In x sigma) by now apply in_sigma_mu.
+      assert (Hu0S : In u0 sigma) by (apply in_sigma_mu; now apply Hmu0x).
+      assert (Hp1 : forall p, nth_error M1 0 = Some p -> rk v x < rk v p).
+      { intros p Ep. apply rk_lt_of_not; auto.
+        - unfold sigma. apply in_or_app. left. now apply hd_in_rev.
+        - intros ->.
+          assert (Hd1 := NoDup_app_disj (rev M1) (mu0 ++ x :: M2) Hnd x (hd_in_rev _ _ Ep)). apply Hd1.
+          apply in_or_app. right. now left.
+        - intros Hlt. assert (Et : d = true) by (apply flag_true; eauto). congruence. }
+      apply (move_bottom v (rev M1) mu0 x M2 Hnd Hs).
+      * (* everything on the left is ranked below x *)
+        intros l Hl. assert (HlS : In l sigma) by (unfold sigma; apply in_or_app; now left).
+        assert (Hlx : l <> x).
+        { intros ->. apply (NoDup_app_disj (rev M1) (mu0 ++ x :: M2) Hnd x Hl). apply in_or_app. right. now left. }
+        destruct (lt_dec (rk v x) (rk v l)) as [|Hn]; [assumption|exfalso].
+        assert (Hlt : rk v l < rk v x) by (apply rk_lt_of_not; auto).
+        apply in_rev in Hl. destruct M1 as [|p1 M1'] eqn:EM1; [contradiction|].
+        specialize (Hp1 p1 eq_refl). destruct Hl as [->|Hl]; [lia|].
+        apply (Hs l p1 u0); [|split; [lia|specialize (Hbetter v u0 Hv Hu0); lia]].
+        apply sub3_app. right. left. split.
+        -- simpl. apply bef_app. right. left. split; [now apply in_rev in Hl|now left].
+        -- apply in_or_app. now left.
+      * intros u Hu. now apply Hbetter.
+      * intros r Hr. assert (HrS : In r sigma) by (unfold sigma; apply in_or_app; right; apply in_or_app; now right).
+        assert (Hrx : r <> x).
+        { intros ->. apply NoDup_app_r in Hnd. apply NoDup_app_r in Hnd. inversion Hnd; contradiction. }
+        destruct (lt_dec (rk v x) (rk v r)) as [|Hn]; [assumption|exfalso].
+        assert (Hlt : rk v r < rk v x) by (apply rk_lt_of_not; auto).
+        apply (Hs u0 x r); [|split; [now apply Hbetter|assumption]].
+        apply sub3_app. right. right. right. apply sub3_app. right. right. left. split; [assumption|].
+        apply bef_cons. left. auto.
+Qed.
+End Step.
+End Complete.
